@@ -5,8 +5,8 @@ from vlib import Case, hx
 
 HARNESS = "sim_driver"
 LEAN_MODULES = ["ViaProofs.C19"]
-LEMMA_MODULES = ['ViaProofs.ConnLemmas', 'ViaProofs.C09']
-REQUIRED_THEOREMS = ['Via.C19_invariant', 'Via.C19_close_notify_after_write', 'Via.C19_shutdown_keeps_socket_open']
+LEMMA_MODULES = ['ViaProofs.ConnLemmas', 'ViaProofs.C09', 'ViaProofs.ConnWrites']
+REQUIRED_THEOREMS = ['Via.C19_invariant', 'Via.C19_close_notify_after_write', 'Via.C19_shutdown_keeps_socket_open', 'Via.C19_close_notify_ordering']
 LEVEL = "proof"
 TRUSTED_BASE = S.SIM_TRUSTED
 ASSUMPTIONS = S.SIM_ASSUMPTIONS
